@@ -2,6 +2,7 @@ import NomtModel.Core.MultiTotal
 import NomtModel.Core.TermHasher
 import NomtModel.Core.Complete
 import NomtModel.Core.MultiUpdateRoot
+import NomtModel.Core.MultiHonest
 /-!
 # C07 — Multi-proofs are equivalent to (and as sound as) the path proofs they bundle
 
@@ -15,7 +16,8 @@ Not proved here (held by the differential run and its oracles only):
 * completeness of `findIndexFor` (a key covered by some verified path is found) — needs monotonicity of
   the comparison over `inner`.
 Proved below: T7.4 `multiVerifyUpdate` returns the specified root of the updated set (T8.3 for
-multi-proofs; that it never reaches a panic site is T18.5 in `Props/C18.lean`).
+multi-proofs; that it never reaches a panic site is T18.5 in `Props/C18.lean`); T7.5 `fromPathProofs` of
+honest path proofs succeeds and verifies (completeness); T7.6 the two together.
 -/
 namespace Nomt.C07
 open Nomt
@@ -242,5 +244,64 @@ example : multiVerifyUpdate TH 3 exVM4 [([false, true, false], some 9), ([false,
 example : multiVerifyUpdate TH 3 exVM4 [([false, true, false], some 9), ([false, true, true], none)]
     = .ok (.node (.node (.leaf [false, false, false] 1) (.leaf [false, true, false] 9)) (.leaf [true, false, false] 4)) := by
   decide
+
+
+/-- T7.5 **completeness of `from_path_proofs` / `verify`.**  `S` a canonical set of `L`-bit keys, `ks` a
+non-empty list of `L`-bit keys whose specified path proofs (`proveSpec`, the proofs an honest prover
+reads off the trie; they are what the real prover emits — `core-pp`) have strictly ascending terminal
+paths (sorted, pairwise distinct terminals; that none is a prefix of another then follows).  Then
+
+* `MultiProof::from_path_proofs` succeeds on them (no panic site of the explicit-stack bisection loop is
+  reached, the fuel of the Lean loop suffices) and its terminals are those of the path proofs, in order;
+* `verify` accepts the result against the root of `S` (no hash assumption is needed for this direction);
+* the verified terminals are those of the path proofs, each at depth = the number of siblings of its path
+  proof; every proved key is in scope of the verified multi-proof (`terminal_contains` holds for its own
+  terminal), so the lookups and the update can be used for exactly the proved keys. -/
+theorem T7_5_from_path_proofs_complete (L : Nat) (S : List (Key × VH)) (hc : Canon L 0 S)
+    (hlen : ∀ kv ∈ S, kv.1.length = L) (ks : List Key) (hne : ks ≠ []) (hkl : ∀ k ∈ ks, k.length = L)
+    (hasc : (ks.map (fun k => (proveSpec H L S k).terminal.path)).Pairwise (fun a b => bitsLt a b = true)) :
+    ∃ (mp : MultiProof Node VH) (v : VerifiedMulti Node VH),
+      fromPathProofs (ks.map (proveSpec H L S)) = .ok mp ∧
+      verifyMulti H mp (nodeAt H L 0 S) = .ok v ∧
+      v.inner.map (·.terminal) = (ks.map (proveSpec H L S)).map (·.terminal) ∧
+      v.inner.map (·.depth) = (ks.map (proveSpec H L S)).map (·.siblings.length) ∧
+      mp.paths.map (·.terminal) = (ks.map (proveSpec H L S)).map (·.terminal) ∧
+      v.siblings = mp.siblings ∧ v.root = nodeAt H L 0 S ∧
+      (∀ k ∈ ks, ∃ (j : Nat) (t : VPath VH), v.inner[j]? = some t ∧
+        k.take t.depth = t.terminal.path.take t.depth) :=
+  fromPathProofs_complete H L S hc hlen ks hne hkl hasc
+
+/-- T7.5a (structural half, no trie involved): the pre-order layout of ANY well-formed aligned recursion
+tree is accepted by `verify` against the tree's own hash, with the tree's verified paths and
+bisections. -/
+theorem T7_5a_tree_layout_verifies (T : PTree Node VH) (hwf : T.WF) (hal : T.Aligned []) :
+    verifyMulti H { paths := T.mpaths [], siblings := T.flat } (T.hash H) =
+      .ok { inner := T.vpaths [] 0, bisections := T.vbis [] 0, siblings := T.flat, root := T.hash H } :=
+  verifyMulti_complete H T hwf hal
+
+/-- T7.6 **prove – bundle – verify – update, end to end.**  `H` sound, `S` canonical with `L`-bit keys.
+The specified path proofs of the keys `ks` (ascending terminals) are bundled by `from_path_proofs`, the
+bundle is accepted by `verify`, and for any strictly ascending ops on keys among `ks` the multi-proof
+update returns the root of `kvApply S ops`. -/
+theorem T7_6_multi_proof_end_to_end (hs : H.Sound) (L : Nat) (S : List (Key × VH)) (hc : Canon L 0 S)
+    (hlen : ∀ kv ∈ S, kv.1.length = L) (ks : List Key) (hne : ks ≠ []) (hkl : ∀ k ∈ ks, k.length = L)
+    (hasc : (ks.map (fun k => (proveSpec H L S k).terminal.path)).Pairwise (fun a b => bitsLt a b = true))
+    (ops : List (Key × Option VH)) (hops : ∀ o ∈ ops, o.1 ∈ ks) (hsorted : ops.Pairwise KeyLt) :
+    ∃ (mp : MultiProof Node VH) (v : VerifiedMulti Node VH),
+      fromPathProofs (ks.map (proveSpec H L S)) = .ok mp ∧
+      verifyMulti H mp (nodeAt H L 0 S) = .ok v ∧
+      multiVerifyUpdate H L v ops = .ok (nodeAt H L 0 (kvApply S ops)) := by
+  obtain ⟨mp, v, hfrom, hver, _, _, _, _, _, hscope⟩ := fromPathProofs_complete H L S hc hlen ks hne hkl hasc
+  exact ⟨mp, v, hfrom, hver, multiVerifyUpdate_eq_root hs S hc hlen mp hver ops
+    (fun o ho => hkl _ (hops o ho)) hsorted (fun o ho => hscope _ (hops o ho))⟩
+
+/-! Non-vacuity of T7.5 / T7.6 on the four-key set `exS4`: the keys `010`, `011`, `110` (the last one
+absent: its proof ends in the leaf `100`). -/
+example : ∃ mp v, fromPathProofs ([[false, true, false], [false, true, true], [true, true, false]].map
+      (proveSpec TH 3 exS4)) = .ok mp ∧ verifyMulti TH mp (nodeAt TH 3 0 exS4) = .ok v ∧
+    multiVerifyUpdate TH 3 v [([false, true, true], some 7), ([true, true, false], some 8)]
+      = .ok (nodeAt TH 3 0 (kvApply exS4 [([false, true, true], some 7), ([true, true, false], some 8)])) :=
+  T7_6_multi_proof_end_to_end TH TH_sound 3 exS4 (by simp [exS4, Canon, side]) (by simp [exS4]) _ (by simp)
+    (by decide) (by decide) _ (by decide) (by simp [KeyLt, bitsLt])
 
 end Nomt.C07
